@@ -122,8 +122,10 @@ def check(ctx):
               'dependence on the input size are no longer those of the stored keys')
     ins = [c for c in own_nodes(srt.node) if isinstance(c, ast.Call) and isinstance(c.func, ast.Attribute) and c.func.attr == 'insert'
            and pseudo(c.func.value) == db]
+    # the key generator is fed the resource's rows (its first argument; further arguments such as the key calculator may follow)
     ok = len(ins) == 1 and isinstance(ins[0].args[0], ast.Call) and pseudo(ins[0].args[0].func) == proc0.node.name and \
-        len(ins[0].args[0].args) == 1 and pseudo(ins[0].args[0].args[0]) == srt.params[0]
+        len(ins[0].args[0].args) >= 1 and pseudo(ins[0].args[0].args[0]) == srt.params[0] and \
+        proc0.params and proc0.params[0] == proc.params[0]
     run.check(ok, 'STB', srt.where, ident, 'db.insert(process(rows))', 'not all rows are inserted')
     if ok and outs:
         order = [x for x in ast.walk(srt.node) if x is ins[0] or x is outs[0]]
